@@ -1,6 +1,12 @@
+#[cfg(not(kani))]
 use ahash::AHashMap;
+#[cfg(kani)]
+use iggy::verif_model::map::AHashMap;
 use iggy::error::IggyError;
+#[cfg(not(kani))]
 use tokio::sync::RwLock;
+#[cfg(kani)]
+use iggy::verif_model::lock::RwLock;
 use tracing::trace;
 
 #[derive(Debug)]
